@@ -271,6 +271,70 @@ Proof.
 Qed.
 Print Assumptions C13_mid_tick_pass.
 
+(* ---- round 4: a Cancel whose deregistration exchange fails; the limiter's cancel / hand-over race ---- *)
+
+(* Observation.Cancel, from every state of the observation table that satisfies the invariant of
+   C13_observations (every reachable one does), whatever becomes of the deregistration exchange --
+   answered with any code, or FAILED (peer silent until the context ends, write refused, request
+   rejected): the table and the live set after a failed Cancel are those after an answered one,
+   nothing is kept under the token of the cancelled registration, and table = live observations
+   continues to hold.  (cleanUp is Cancel's first statement.) *)
+Theorem C13_cancel_failed_exchange : forall s lv id, OInv s lv ->
+  let s' := fst (O.step O.observe_wire s (O.ECancelErr id)) in
+  let lv' := live_after s lv (O.ECancelErr id) in
+  (forall code, O.tbl s' = O.tbl (fst (O.step O.observe_wire s (O.ECancel id code))) /\
+                lv' = live_after s lv (O.ECancel id code)) /\
+  (forall tok, nth_error (O.regs s) id = Some tok -> O.tget (O.crc64 tok) (O.tbl s') = None) /\
+  OInv s' lv' /\ (no_waiting s' -> length (O.tbl s') = length lv').
+Proof. exact cancel_outcome_irrelevant. Qed.
+Print Assumptions C13_cancel_failed_exchange.
+
+(* limiter, EVERY schedule of the atomic sections (including a releaseEndpoint that hands its slot to
+   a waiter which has already taken <-ctx.Done() and has not reached cancelEndpoint yet), every
+   endpoint key: an entry of endpointQueues is held only for calls that have not returned -- the
+   counter is the number of requests owning a slot of the key (>= 1, none of them returned), the queue
+   is exactly the requests still waiting inside acquireEndpoint *)
+Theorem C13_limiter_entries_owned : forall limit epl tr k cnt q,
+  let l := L.run (L.new_lim limit epl) tr in
+  L.tab l k = Some (cnt, q) ->
+  cnt = Z.of_nat (length (LP.selK LP.holds_ep (L.keyof l) (L.st l) (L.arr l) k)) /\ 1 <= cnt /\
+  q = LP.selK LP.waits_ep (L.keyof l) (L.st l) (L.arr l) k /\
+  (exists r, In r (L.arr l) /\ L.keyof l r = k /\ LP.holds_ep (L.st l r) = true /\ forall e, L.st l r <> L.Done e).
+Proof. exact limiter_entries_owned. Qed.
+Print Assumptions C13_limiter_entries_owned.
+
+(* ... and in every reachable state a cancelled waiter that was handed a slot in that window gives
+   it back in its two remaining sections (cancelEndpoint does not find its channel => releaseEndpoint):
+   the slot goes to the head of the queue, or the counter drops and the entry is deleted at 0 *)
+Theorem C13_limiter_handover_returned : forall limit epl tr r,
+  let l := L.run (L.new_lim limit epl) tr in
+  L.st l r = L.CancelG ->
+  let l2 := L.step (L.step l (L.CancelSec r)) (L.ReleaseEp r) in
+  L.st l2 r = L.Done L.ErrEp /\
+  exists cnt q, L.tab l (L.keyof l r) = Some (cnt, q) /\ 1 <= cnt /\ ~ In r q /\
+    match q with
+    | w :: rest => L.tab l2 (L.keyof l r) = Some (cnt, rest) /\ L.st l2 w = L.grant_ep (L.st l w)
+    | [] => L.tab l2 (L.keyof l r) = (if cnt - 1 =? 0 then None else Some (cnt - 1, []))
+    end.
+Proof. exact limiter_handover_returned. Qed.
+Print Assumptions C13_limiter_handover_returned.
+
+(* (C13_all / C13_all_faults quantify over histories with the events ObCancelErr, LmAct and
+   LmSettleHold as well: the composition covers failed deregistrations and the hand-over race.)
+   Non-trivial instance: request 1 holds the only slot of endpoint 7, request 2 is queued, 2 is
+   cancelled and takes <-ctx.Done(), 1 finishes while 2 is delayed: 2 owns the slot (entry kept, queue
+   empty); when 2 goes on the entry is deleted.  A live observation whose Cancel fails leaves no entry. *)
+Example C13_round4_instance :
+  let c := {| R.ack_ms := 140000; R.max_rt := 2; R.nstart := 16 |} in
+  let evs := [LmArrive 1 7; LmSettle; LmArrive 2 7; LmSettle; LmCancel 2; LmAct (L.SeeCancel 2%N);
+              LmFinish 1; LmSettleHold [2%N]; ObReg [1; 2]; ObMsg [1; 2] 69 (Some [2]) 0] in
+  let s := Model.run c (Model.init 0 1) evs in
+  L.st (lm s) 2%N = L.CancelG /\
+  sizes s = [0; 0; 0; 0; 0; 0; 1; 0; 0; 0; 1] /\
+  sizes (Model.run c s [LmSettle; ObCancelErr 0]) = [0; 0; 0; 0; 0; 0; 0; 0; 0; 0; 0] /\
+  live (Model.run c s [LmSettle; ObCancelErr 0]) = [].
+Proof. vm_compute. repeat split; reflexivity. Qed.
+
 (* non-trivial instances: two copies of a request contending for the per-ID lock (the second one's
    TryLock fails, it waits in Lock), and a tick that holds an expired entry while its exchange is
    acknowledged and the message ID is reused *)
